@@ -28,6 +28,12 @@ Proof.
   apply xnc_bind; [apply H|]. intros y. apply xnc_bind; [exact IH|]. intros; exact I.
 Qed.
 
+Lemma xnc_xmapM_in {A B} (f : A -> xres B) l : (forall x, In x l -> xnc (f x)) -> xnc (xmapM f l).
+Proof.
+  induction l as [|x r IH]; intros H; simpl; [exact I|].
+  apply xnc_bind; [apply H; left; reflexivity|]. intros y. apply xnc_bind; [apply IH; intros; apply H; right; assumption|]. intros; exact I.
+Qed.
+
 (* ---- expressions -------------------------------------------------------------------------- *)
 Lemma nc_lit enc l : nc (lit_value enc l).
 Proof.
@@ -54,14 +60,26 @@ Proof.
   - exact IHe.
 Qed.
 
-Lemma find_def_remove f s rem d : find_def f s rem = Some d -> S (length (remove_def f s rem)) = length rem.
+Definition dkey (d : defn) : nat * string := (d_file d, d_name d).
+
+Lemma find_def_In f s l d : find_def f s l = Some d -> In (f, s) (map dkey l).
 Proof.
-  induction rem as [|x r IH]; simpl; [discriminate|].
-  destruct (Nat.eqb f (d_file x) && String.eqb s (d_name x)); intros H; [reflexivity|]. simpl. rewrite IH by exact H. reflexivity.
+  induction l as [|x r IH]; simpl; [discriminate|].
+  destruct (Nat.eqb f (d_file x) && String.eqb s (d_name x)) eqn:E; intros H.
+  - apply andb_true_iff in E. destruct E as [E1 E2]. apply Nat.eqb_eq in E1. apply String.eqb_eq in E2.
+    left. unfold dkey. congruence.
+  - right. auto.
 Qed.
 
-Lemma remove_def_le f s rem : (length (remove_def f s rem) <= length rem)%nat.
-Proof. induction rem as [|x r IH]; simpl; [lia|]. destruct (Nat.eqb f (d_file x) && String.eqb s (d_name x)); simpl; lia. Qed.
+Lemma vmem_false f s vis : vmem f s vis = false -> ~ In (f, s) vis.
+Proof.
+  unfold vmem. intros H Hin. rewrite <- not_true_iff_false in H. apply H.
+  apply existsb_exists. exists (f, s). split; [exact Hin|]. simpl. rewrite Nat.eqb_refl, String.eqb_refl. reflexivity.
+Qed.
+
+(* the visiting list is a duplicate-free list of definition names, so it is never longer than the table *)
+Definition vis_ok (alldefs : list defn) (fuel : nat) (vis : list (nat * string)) : Prop :=
+  NoDup vis /\ incl vis (map dkey alldefs) /\ (length alldefs < fuel + length vis)%nat.
 
 Section Total.
 Variable enc : list N -> option (list Z).
@@ -84,29 +102,43 @@ Proof. destruct fuel; reflexivity. Qed.
 Lemma xev_group fuel rem sc dot b x : xev fuel rem sc dot (Group b x) = xev fuel rem sc dot x.
 Proof. destruct fuel; reflexivity. Qed.
 
-Lemma xnc_xev fuel : forall rem sc dot e, (length rem <= fuel)%nat -> xnc (xev fuel rem sc dot e).
+Lemma xnc_xev fuel : forall vis sc dot e, vis_ok alldefs fuel vis -> xnc (xev fuel vis sc dot e).
 Proof.
-  induction fuel as [|f IHf]; intros rem sc dot e Hlen; induction e;
+  assert (Step : forall fuel vis, vis_ok alldefs fuel vis ->
+            (forall fl, fuel = S fl -> forall vis' sc dot e, vis_ok alldefs fl vis' -> xnc (xev fl vis' sc dot e)) ->
+            forall (s : string) (g : nat) (k : xres Z), xnc k ->
+            xnc (match find_def g s alldefs with
+                 | Some d => if vmem g s vis then XErr ["recursive-definition"]
+                             else match fuel with
+                                  | O => XOutOfFuel
+                                  | S fl => xev fl ((g, s) :: vis) (g, Some (d_scope d)) (klookup (KGlobal g s) ddots) (d_expr d)
+                                  end
+                 | None => k end)).
+  { intros fu vis [ND [IN LT]] IH s g k Hk. destruct (find_def g s alldefs) eqn:F; [|exact Hk].
+    destruct (vmem g s vis) eqn:V; [exact I|].
+    assert (OK' : NoDup ((g, s) :: vis) /\ incl ((g, s) :: vis) (map dkey alldefs)).
+    { split; [constructor; [apply vmem_false; exact V|exact ND]|].
+      intros x [<-|Hx]; [eapply find_def_In; eauto|auto]. }
+    destruct fu as [|fl].
+    - exfalso. destruct OK' as [ND' IN']. pose proof (NoDup_incl_length ND' IN') as L. rewrite map_length in L. simpl in L, LT. lia.
+    - apply (IH fl eq_refl). destruct OK'. split; [assumption|]. split; [assumption|]. simpl. simpl in LT. lia. }
+  induction fuel as [|f IHf]; intros vis sc dot e OK; induction e;
     try (rewrite xev_un; apply xnc_bind; [assumption|intros; apply xnc_lift, nc_sem_un]);
     try (rewrite xev_bin; apply xnc_bind; [assumption|intros; apply xnc_bind; [assumption|intros; apply xnc_lift, nc_sem_bin]]);
     try (rewrite xev_group; assumption);
     try (simpl; apply xnc_lift, nc_lit);
     try (simpl; destruct dot; exact I).
   - simpl. destruct (own_of labels sc s); [exact I|].
-    destruct (find_def (fst sc) s rem) eqn:F; [apply find_def_remove in F; lia|].
-    destruct (find_def (fst sc) s alldefs); [exact I|].
+    apply (Step 0%nat vis OK); [intros fl E; discriminate|].
     match goal with |- context[if ?c then _ else _] => destruct c end; [exact I|].
     destruct (slookup s exports) as [g|]; [|exact I]. destruct (klookup (KGlobal g s) labels); [exact I|].
-    destruct (find_def g s rem) eqn:F2; [apply find_def_remove in F2; lia|].
-    destruct (find_def g s alldefs); [exact I|].
+    apply (Step 0%nat vis OK); [intros fl E; discriminate|].
     match goal with |- context[if ?c then _ else _] => destruct c end; exact I.
   - simpl. destruct (own_of labels sc s); [exact I|].
-    destruct (find_def (fst sc) s rem) eqn:F; [apply IHf; apply find_def_remove in F; lia|].
-    destruct (find_def (fst sc) s alldefs); [exact I|].
+    apply (Step (S f) vis OK); [intros fl E; injection E as <-; apply IHf|].
     match goal with |- context[if ?c then _ else _] => destruct c end; [exact I|].
     destruct (slookup s exports) as [g|]; [|exact I]. destruct (klookup (KGlobal g s) labels); [exact I|].
-    destruct (find_def g s rem) eqn:F2; [apply IHf; apply find_def_remove in F2; lia|].
-    destruct (find_def g s alldefs); [exact I|].
+    apply (Step (S f) vis OK); [intros fl E; injection E as <-; apply IHf|].
     match goal with |- context[if ?c then _ else _] => destruct c end; exact I.
 Qed.
 End Ev.
@@ -165,7 +197,7 @@ Proof.
   - apply xnc_bind; [apply xnc_xmapM; intros [s|e]; simpl; [exact I|apply xnc_bind; [apply H|intros; exact I]]|].
     intros ch. apply (xnc_embed (SAscii z ch) addr).
   - apply xnc_bind; [apply xnc_xmapM; intros [s|e]; simpl; [exact I|apply xnc_bind; [apply H|intros; exact I]]|].
-    intros ch. unfold rad50_ascii. destruct (rad50_total ascii_upper ch) as [[bs [E _]]|[ids [E _]]]; rewrite E; exact I.
+    intros ch. unfold rad50_ascii. destruct (rad50_never_crashes ch) as [[bs [E _]]|[ids [E _]]]; rewrite E; exact I.
   - apply xnc_bind; [apply H|]. intros v. apply xnc_bind; [apply xnc_lift, nc_gai16|]. intros nw.
     destruct (nw - addr <? 0); exact I.
 Qed.
@@ -194,7 +226,7 @@ Variable exports : list (string * nat).
 Let fuel := S (length alldefs).
 
 Lemma xnc_lev st sc e : xnc (lev enc alldefs allkeys exports fuel st sc e).
-Proof. unfold lev. apply xnc_xev. unfold fuel. lia. Qed.
+Proof. unfold lev. apply xnc_xev. unfold fuel. split; [constructor|]. split; [intros x []|]. simpl. lia. Qed.
 
 Lemma xnc_lay_leaf inrep s st : xnc (lay_leaf enc alldefs allkeys exports fuel inrep s st).
 Proof.
@@ -214,11 +246,14 @@ Definition stmt_nc (s : stmt) : Prop := forall inrep st, xnc (lay_stmt enc allde
 Lemma xnc_lay_list l : Forall stmt_nc l -> forall inrep st, xnc (lay_list enc alldefs allkeys exports fuel inrep l st).
 Proof.
   induction 1 as [|x r Hx _ IH]; intros inrep st; simpl; [exact I|].
-  apply xnc_bind; [apply Hx|]. intros; apply IH.
+  apply xnc_bind; [apply Hx|]. intros a. apply xnc_bind; [apply IH|intros; exact I].
 Qed.
 
 Lemma xnc_iter n f : (forall st, xnc (f st)) -> forall st, xnc (iter_x n f st).
-Proof. intros H. induction n; intros st; simpl; [exact I|]. apply xnc_bind; [apply H|]. exact IHn. Qed.
+Proof.
+  intros H. induction n; intros st; simpl; [exact I|]. apply xnc_bind; [apply H|]. intros r.
+  apply xnc_bind; [apply IHn|intros; exact I].
+Qed.
 
 Lemma xnc_lay_stmt s : stmt_nc s.
 Proof.
@@ -234,13 +269,15 @@ Qed.
 Lemma xnc_find_base q : xnc (find_base enc alldefs allkeys exports fuel q).
 Proof.
   unfold find_base. destruct (first_base q); [|exact I].
-  apply xnc_bind; [apply xnc_xev; unfold fuel; lia|]. intros; apply xnc_lift, nc_gai16.
+  apply xnc_bind; [apply xnc_xev; unfold fuel; split; [constructor|]; split; [intros x []|]; simpl; lia|]. intros; apply xnc_lift, nc_gai16.
 Qed.
 
 Lemma xnc_def_values labels ddots : xnc (def_values enc alldefs allkeys exports fuel labels ddots).
 Proof.
-  unfold def_values. apply xnc_xmapM. intros d. apply xnc_bind; [|intros; exact I].
-  apply xnc_xev. pose proof (remove_def_le (d_file d) (d_name d) alldefs). unfold fuel. lia.
+  unfold def_values. apply xnc_xmapM_in. intros d Hd. apply xnc_bind; [|intros; exact I].
+  apply xnc_xev. split; [constructor; [intros []|constructor]|]. split.
+  - intros x [<-|[]]. apply (in_map dkey) in Hd. exact Hd.
+  - unfold fuel. simpl. lia.
 Qed.
 End Lay.
 
@@ -268,6 +305,6 @@ Theorem image_thm p f : assemble_full enc p = XOk f ->
 Proof. intros H. unfold assemble. rewrite H. reflexivity. Qed.
 
 Theorem guard_thm p f : assemble_full enc p = XOk f -> forallb size_ok (combine (f_items f) (f_chunks f)) = true.
-Proof. intros H. destruct (assemble_full_inv _ _ _ H) as [st [dv [_ [_ [_ [_ [_ [_ [_ G]]]]]]]]]. exact G. Qed.
+Proof. intros H. destruct (assemble_full_inv _ _ _ H) as [st [dv [_ [_ [_ [_ [_ [_ G]]]]]]]]. exact G. Qed.
 
 End Total.
